@@ -827,6 +827,7 @@ func (p *Prog) fieldsTouched(tname string, bodies []*ast.FuncDecl) (stored, read
 var symmetryExempt = map[string]string{
 	"Settings.hasWindowSize": "receiver-side presence marker for INITIAL_WINDOW_SIZE; never encoded",
 	"Settings.present":       "receiver-side presence markers, one bit per parameter id that was in the frame; never encoded",
+	"Settings.tableSizeLow":  "receiver-side: the lowest HEADER_TABLE_SIZE the frame carried (a frame may carry it more than once); never encoded",
 	"Settings.rawSettings":   "scratch buffer of Encode",
 }
 
